@@ -1,0 +1,111 @@
+//go:build verif
+// +build verif
+
+package nutsdb
+
+import (
+	"sync"
+	"unsafe"
+)
+
+// VerifFSHook, when set, observes (and may veto by returning an error) every
+// file mutation the library is about to perform. Ops: mkdir, create, truncate,
+// write, sync, close, remove, lock, unlock.
+var VerifFSHook func(op, path string, off int64, data []byte) error
+
+func verifFS(op, path string, off int64, data []byte) error {
+	if h := VerifFSHook; h != nil {
+		return h(op, path, off, data)
+	}
+	return nil
+}
+
+var (
+	verifMMapMu    sync.Mutex
+	verifMMapPaths = map[uintptr]string{}
+)
+
+func verifMMapRegister(m []byte, path string) {
+	if len(m) == 0 {
+		return
+	}
+	verifMMapMu.Lock()
+	verifMMapPaths[uintptr(unsafe.Pointer(&m[0]))] = path
+	verifMMapMu.Unlock()
+}
+
+func verifMMapPath(m []byte) string {
+	if len(m) == 0 {
+		return ""
+	}
+	verifMMapMu.Lock()
+	defer verifMMapMu.Unlock()
+	return verifMMapPaths[uintptr(unsafe.Pointer(&m[0]))]
+}
+
+// VerifID reports the transaction id.
+func (tx *Tx) VerifID() uint64 { return tx.id }
+
+// VerifWritable reports whether the transaction is a write transaction.
+func (tx *Tx) VerifWritable() bool { return tx.writable }
+
+// VerifBPTNode is a dump of one B+ tree node.
+type VerifBPTNode struct {
+	Leaf     bool
+	Keys     [][]byte
+	Children []*VerifBPTNode
+}
+
+func verifDumpNode(n *Node) *VerifBPTNode {
+	if n == nil {
+		return nil
+	}
+	d := &VerifBPTNode{Leaf: n.isLeaf}
+	for i := 0; i < n.KeysNum; i++ {
+		d.Keys = append(d.Keys, n.Keys[i])
+	}
+	if !n.isLeaf {
+		for i := 0; i <= n.KeysNum; i++ {
+			c, _ := n.pointers[i].(*Node)
+			d.Children = append(d.Children, verifDumpNode(c))
+		}
+	}
+	return d
+}
+
+// VerifDump returns the shape of the tree.
+func (t *BPTree) VerifDump() *VerifBPTNode { return verifDumpNode(t.root) }
+
+// VerifHint exposes the hint of a record: file id, data position, flag, tx id.
+func (r *Record) VerifHint() (fileID int64, dataPos uint64, flag uint16, txID uint64, ttl uint32, ts uint64) {
+	return r.H.fileID, r.H.dataPos, r.H.meta.Flag, r.H.meta.txID, r.H.meta.TTL, r.H.meta.timestamp
+}
+
+// VerifNewEntry builds an entry with every field chosen by the caller (codec checks).
+func VerifNewEntry(bucket, key, value []byte, ts uint64, ttl uint32, flag, status, ds uint16, txID uint64) *Entry {
+	return &Entry{Key: key, Value: value, Meta: &MetaData{
+		keySize: uint32(len(key)), valueSize: uint32(len(value)), timestamp: ts, TTL: ttl, Flag: flag,
+		bucket: bucket, bucketSize: uint32(len(bucket)), txID: txID, status: status, ds: ds}}
+}
+
+// VerifFields returns every field of a decoded entry.
+func (e *Entry) VerifFields() (bucket, key, value []byte, ts uint64, ttl uint32, flag, status, ds uint16, txID uint64, crc uint32) {
+	return e.Meta.bucket, e.Key, e.Value, e.Meta.timestamp, e.Meta.TTL, e.Meta.Flag, e.Meta.status, e.Meta.ds, e.Meta.txID, e.crc
+}
+
+// VerifNewBucketMeta / VerifFields for the bucket meta codec.
+func VerifNewBucketMeta(start, end []byte) *BucketMeta {
+	return &BucketMeta{start: start, end: end, startSize: uint32(len(start)), endSize: uint32(len(end))}
+}
+
+func (bm *BucketMeta) VerifFields() (start, end []byte, crc uint32) { return bm.start, bm.end, bm.crc }
+
+// VerifNewRootIdx / VerifFields for the root index codec.
+func VerifNewRootIdx(fID, rootOff uint64, start, end []byte) *BPTreeRootIdx {
+	return &BPTreeRootIdx{fID: fID, rootOff: rootOff, start: start, end: end,
+		startSize: uint32(len(start)), endSize: uint32(len(end))}
+}
+
+func (bri *BPTreeRootIdx) VerifFields() (fID, rootOff uint64, start, end []byte, crc uint32) {
+	return bri.fID, bri.rootOff, bri.start, bri.end, bri.crc
+}
